@@ -195,11 +195,14 @@ class Oracle:
                 nonce, t, c = bytes.fromhex(op[1]), int(op[2]), int(op[3])
                 exp, why = self.window(nonce, t, c)
             else:
-                algo, tmo, mx = int(op[1]), int(op[2]), int(op[3])
-                nonce = b"" if op[4] == "-" else bytes.fromhex(op[4])
-                txt = b"" if op[5] == "-" else op[5].encode()
+                # the entry point's documented meaning of its arguments: every one takes the nonce
+                # lifetime in seconds (0 = daemon default); only the *3 functions take a max_nc
+                # (0 = daemon default), the legacy ones always use the daemon default
+                api, algo, tmo, mx = op[1], int(op[2]), int(op[3]), int(op[4])
+                nonce = b"" if op[5] == "-" else bytes.fromhex(op[5])
+                txt = b"" if op[6] == "-" else op[6].encode()
                 tmo = tmo or DEF_TIMEOUT
-                mx = mx or DEF_MAXNC
+                mx = (mx or DEF_MAXNC) if api in ("c3", "d3") else DEF_MAXNC
                 if len(txt) == 0 or len(txt) > 32:
                     exp, why = "hdr", "nc-len"
                 elif len(nonce) == 0 or len(nonce) > 2 * STD[algo]:
@@ -216,6 +219,15 @@ class Oracle:
                     exp, why = "stale", "expired"
                 else:
                     exp, why = self.window(nonce, nonce_ts(nonce), int(txt.decode(), 16))
+            if k == "auth":
+                why = op[1] + "/" + why
+                if op[1] not in ("c3", "d3"):
+                    # legacy entry points answer MHD_YES / MHD_INVALID_NONCE / MHD_NO
+                    if out not in ("yes", "invalid", "no"):
+                        return "legacy entry point answered " + out, why
+                    out = {"yes": "ok", "invalid": "invalid", "no": "hdr"}[out]
+                    if exp in ("stale", "wrong", "not-ok"):
+                        exp = "invalid"
             if exp is None:
                 # outside the property's domain (NUL byte in the presented nonce): not judged, but
                 # if the code accepted it the count is gone from that slot's window
@@ -223,7 +235,7 @@ class Oracle:
                     cur = self.slots.get(self.idx(nonce))
                     if cur is not None:
                         cur["used"].add(int(op[2]) if k == "check" else int(op[3]) if k == "checkt"
-                                        else int(op[5], 16))
+                                        else int(op[6], 16))
                 return None, why
             if exp == "not-ok":
                 return (None if out in ("stale", "wrong") else "non-registered nonce answered " + out), why
@@ -301,9 +313,9 @@ def subst(seq, rs):
                 o.append(w[1](*[bytes.fromhex(rs.hexof(x)) for x in w[2:]]).hex() or "-")
             else:
                 o.append(str(w))
-        if o[0] == "auth" and o[6] == "?":
-            nb = b"" if o[4] == "-" else bytes.fromhex(o[4])
-            o[6] = response_for(int(o[1]), nb, b"" if o[5] == "-" else o[5].encode())
+        if o[0] == "auth" and o[7] == "?":
+            nb = b"" if o[5] == "-" else bytes.fromhex(o[5])
+            o[7] = response_for(int(o[2]), nb, b"" if o[6] == "-" else o[6].encode())
         out.append(o)
     return out
 
@@ -389,7 +401,7 @@ def gen_random_seq(rng):
             nonces.append(s)
             hi.setdefault(s, 0)
         elif r < 0.30:
-            now = (now + rng.choice([1, 5, 500, 29999, 30000, 30001, 60000, 89999, 90000, 90001, 200000,
+            now = (now + rng.choice([1, 5, 500, 4000, 5000, 5001, 6000, 29999, 30000, 30001, 60000, 89999, 90000, 90001, 200000,
                                       U48 - 5, U48 // 2, U48 // 2 + 30000])) % U64
             ops.append(["clock", now])
         elif r < 0.80:
@@ -404,10 +416,11 @@ def gen_random_seq(rng):
             elif kind < 0.65:
                 ops.append(["checkt", s, rng.choice([s[1] % U48, now % U48, (s[1] + 40000) % U48, 0, U64 - 1]), c])
             else:
-                tmo = rng.choice([0, 0, 1, 30, 90, 300, 4294967, 4294968, U32 - 1])
                 mx = rng.choice([0, 0, 5, 70, 1000, U32 - 1])
                 txt = rng.choice(["%08x" % (c % U32), "%x" % c, ("%x" % c).upper(), "%032x" % c])
-                ops.append(["auth", s[2], tmo, mx, s, txt, "?"])
+                api = rng.choice(apis_for(s[2]))
+                tmo = rng.choice([0, 0, 1, 5, 5, 30, 90, 300, 4294967, 4294968, U32 - 1])
+                ops.append(["auth", api, s[2], tmo, mx if api in ("c3", "d3") else 0, s, txt, "?"])
             if c < GUARD:
                 hi[s] = max(h, c)
         elif r < 0.92:
@@ -418,14 +431,52 @@ def gen_random_seq(rng):
             if rng.random() < 0.5:
                 ops.append(["check", ("M", s, mut), c])
             else:
-                ops.append(["auth", rng.choice([s[2], s[2], (s[2] + 1) % 3]), 0, 0, ("M", s, mut), "%08x" % c, "?"])
+                al = rng.choice([s[2], s[2], (s[2] + 1) % 3])
+                ops.append(["auth", rng.choice(apis_for(al)), al, 0, 0, ("M", s, mut), "%08x" % c, "?"])
         else:
             s = rng.choice(nonces)
             bad = rng.choice(["-", "g", "0x1", "1 ".strip() + "z", "0" * 33, "1" + "0" * 16, "f" * 16, "f" * 17,
                               "00000000", "0"])
-            ops.append(["auth", s[2], 0, rng.choice([0, U32 - 1]), s, bad, "?"])
+            api = rng.choice(apis_for(s[2]))
+            ops.append(["auth", api, s[2], 0, rng.choice([0, U32 - 1]) if api in ("c3", "d3") else 0, s, bad, "?"])
         if rng.random() < 0.08:
             ops.append(["state"])
+    ops.append(["state"])
+    return ops
+
+
+API_ALL = ["c3", "d3", "c2", "c1", "dg2", "dg1"]
+
+
+def apis_for(algo):
+    """entry points usable with a client algorithm (see apiAllowed in the driver / harness)"""
+    return {0: API_ALL, 1: ["c3", "d3", "c2", "dg2"], 2: ["c3", "d3", "c2"]}[algo]
+
+
+def gen_lifetime(rng):
+    """every public entry point with a requested lifetime different from the daemon default and a
+    max_nc different from the lifetime: the clock crosses the requested lifetime but not the
+    default (and vice versa), and counts go above the lifetime value"""
+    algo = rng.choice([0, 0, 1, 2])
+    api = rng.choice(apis_for(algo))
+    tmo = rng.choice([1, 2, 5, 5, 7, 20, 200])        # seconds; default is 90
+    mx = rng.choice([0, 3, 9, 50, 2000]) if api in ("c3", "d3") else 0
+    t0 = rng.choice([1000, 123456789, U48 - 3000])
+    size = rng.choice([1, 2, 4])
+    N = sym(t0, algo, "%02x" % rng.randint(0, 60))
+    ops = [["table", size], ["clock", t0], add_op(N)]
+    nc = 0
+    for dt in [0, tmo * 1000 - 1000, tmo * 1000, tmo * 1000 + 1, tmo * 1000 + 1000, 89000, 90000, 90001]:
+        if dt < 0:
+            continue
+        nc += rng.choice([1, 1, 2])
+        ops.append(["clock", (t0 + dt) % U64])
+        ops.append(["auth", api, algo, tmo, mx, N, "%08x" % nc, "?"])
+    t1 = (t0 + 100000) % U64
+    M = sym(t1, algo, "%02x" % rng.randint(0, 60))
+    ops += [["clock", t1], add_op(M)]
+    for c in sorted({1, tmo, tmo + 1, tmo + 15, 20, mx or 1, (mx or 1) + 1, 64, 999, 1000, 1001} - {0}):
+        ops.append(["auth", api, algo, tmo, mx, M, "%x" % c, "?"])
     ops.append(["state"])
     return ops
 
@@ -444,8 +495,8 @@ def gen_directed(rng):
     ops = [["table", size], ["clock", t0], add_op(L), ["check", L, 1], ["check", L, 2], ["clock", S[1]],
            add_op(S), ["state"], ["check", S, 1]]
     tail = [["check", alias0, 2], ["check", aliasx, 2], ["check", alias1, 2], ["check", L, 3], ["check", S, 2],
-            ["auth", 1, 0, 0, alias0, "00000003", "?"], ["auth", 1, 0, 0, aliasx, "00000003", "?"],
-            ["auth", 1, 0, 0, L, "00000004", "?"], ["checkt", alias0, 5, 4], add_op(S), add_op(L), ["check", L, 1],
+            ["auth", "c3", 1, 0, 0, alias0, "00000003", "?"], ["auth", "d3", 1, 0, 0, aliasx, "00000003", "?"],
+            ["auth", "c2", 1, 0, 0, L, "00000004", "?"], ["checkt", alias0, 5, 4], add_op(S), add_op(L), ["check", L, 1],
             ["check", S, 5], ["check", ("M", L, mut_trunc(32)), 1], ["check", ("M", S, mut_extend(32)), 1]]
     rng.shuffle(tail)
     return ops + tail + [["state"]]
@@ -474,7 +525,7 @@ def run_batch(harness, driver, seqs, engine="nonce"):
     """seqs: resolved sequences (lists of word lists).  returns (failures, stats)"""
     failures, stats = [], {}
     lines = [" ".join(o) for s in seqs for o in s]
-    nonces = sorted({o[{"add": 4, "check": 1, "checkt": 1, "auth": 4}[o[0]]] for s in seqs for o in s
+    nonces = sorted({o[{"add": 4, "check": 1, "checkt": 1, "auth": 5}[o[0]]] for s in seqs for o in s
                      if o[0] in ("add", "check", "checkt", "auth")})
     pre = [["hash", x] for x in nonces]
     seqs = ([pre] if pre else []) + list(seqs)
@@ -546,7 +597,8 @@ def _worker(job):
     elif kind == "rnd":
         seed, count = args
         rng = random.Random(seed)
-        planned = [gen_random_seq(rng) for _ in range(count)] + [gen_directed(rng) for _ in range(max(4, count // 20))]
+        planned = [gen_random_seq(rng) for _ in range(count)] + [gen_directed(rng) for _ in range(max(4, count // 20))] \
+            + [gen_lifetime(rng) for _ in range(max(12, count // 8))]
         rs.resolve([x for s in planned for x in syms_of(s)])
     else:
         seed, count = args
@@ -589,7 +641,9 @@ class Spec:
                          "Mhd.C13.window_complete", "Mhd.C13.window_complete_present",
                          "Mhd.C13.expired_is_stale", "Mhd.C13.above_max_nc_is_stale",
                          "Mhd.C13.evicted_classification", "Mhd.C13.never_registered_slot_is_wrong",
-                         "Mhd.C13.registration_policy", "Mhd.C13.issued_nonce_timestamp", "Mhd.C13.no_fault"]
+                         "Mhd.C13.registration_policy", "Mhd.C13.issued_nonce_timestamp", "Mhd.C13.no_fault",
+                         "Mhd.C13.api_is_present", "Mhd.C13.api_args", "Mhd.C13.expired_is_stale_api",
+                         "Mhd.C13.above_max_nc_is_stale_api", "Mhd.C13.window_complete_api"]
     trusted_base = ["Lean 4 kernel", "axioms: propext, Classical.choice, Quot.sound at most (audited per theorem)",
                     "hand-written model lean/Mhd/Model/Nonce.lean tied to digestauth.c by this run's correspondence",
                     "tools/props/C13.py gen_nonce (REUSE_TIMEOUT, nonce lengths, field widths, nc guard regenerated)",
@@ -668,7 +722,8 @@ class Spec:
                 lines += nlines
                 if sample and len(samples) < 3 and (not samples or len(sample) != len(samples[-1])):
                     samples.append(sample[:12])
-        ok_like = sum(v for k, v in stats.items() if k.endswith(":ok") and k.split(":")[0] in ("check", "checkt", "auth"))
+        ok_like = sum(v for k, v in stats.items() if (k.endswith(":ok") or k.endswith(":yes"))
+                      and k.split(":")[0] in ("check", "checkt", "auth"))
         cov = {"evaluations": evals + len(corpus), "operations": lines,
                "distinct_nontrivial": len(stats),
                "rule": "sequences run on the real code and the Lean model, compared line by line, each judged by the "
@@ -686,7 +741,10 @@ class Spec:
                                   "calculate_add_nonce/is_slot_available": "bounded-exhaustive + random",
                                   "get_nonce_timestamp": "random %d strings (+ every call above)" % (20000 if thorough else 3000),
                                   "fast_simple_hash": "exhaustive for lengths 0 and 1, random for longer",
-                                  "digest_auth_check_all(_inner) vetting sequence": "random (auth op)"},
+                                  "digest_auth_check_all(_inner) vetting sequence": "random (auth op)",
+                                  "public entry points MHD_digest_auth_check3/_check_digest3/_check2/_check/"
+                                  "_check_digest2/_check_digest (argument mapping, result folding)":
+                                      "random + directed lifetime/max_nc sequences per entry point"},
                "exhaustive": False}
         return failures, cov
 
